@@ -11,6 +11,7 @@ RULE = ("random well-formed text files: dimension sizes 1-6, column subsets (dat
         "'# variable/units/x0/x1' lines anywhere; verif.input.Text is then compared attribute by attribute and cell by "
         "cell with the generating dictionary. signature = (column-name set, sparsity class, token set, comment class); "
         "non-trivial = at least two of: permuted columns, shuffled rows, sparse rows, optional columns.")
+RULE += " " + 'Decimal values beyond single precision in every field.'
 ASSUMPTIONS = ["no duplicated (time, lead time, location) rows; locations without an id column are identified by lat/lon/elev",
                "numbers in the file are short exact decimals"]
 REQUIRED_COUNTERS = ["files_read", "cells_compared", "locations_compared", "metadata_checks"]
